@@ -125,6 +125,7 @@ func (w *Writer) WriteRecords(ts []time.Time, data []byte, dsWithEpoch []io.Data
 			w.walFile.QueueWriteCommand(cc)
 			// Setup next command
 			prevIndex = index
+			prevYear = year
 			outBuf = formatRecord([]byte{}, record, t, index, tbi.GetIntervals(), tbi.GetRecordType() == io.VARIABLE)
 			cc = w.walFile.WriteCommand(
 				tbi.GetRecordType(), tbi.Path, int(tbi.GetVariableRecordLength()), offset, index,
